@@ -67,5 +67,15 @@ PROPS['C06'] = {
             'Norm/Dist operators, product-space operators; central-difference convergence order is an analysis fact',
     'technique': 'contract-based deductive verification: derivative rules as postconditions over abstract Frechet derivatives, symbolic differentiation of extracted pointwise terms, z3',
 }
+PROPS['C09'] = {
+    'level': 'proof',
+    'text': 'Deductive: each derived functional class (14 constructions) is built through its real constructor from abstract functionals (fval, grad, '
+            'Lipschitz constant) and proved to take the documented value, to return a gradient equal to the sum / chain / product / quotient rule at the '
+            'correct inner points, derivative(x)(d) = <grad h(x), d>, and a finite grad_lipschitz that dominates the bound of the Lipschitz algebra; '
+            'Functional.__mul__/__rmul__/__add__/__sub__ are proved against the algebra table incl. linearity shortcuts.',
+    'note': 'trusted: pyvc interpreter, C01/C03-C06 contracts, calculus rules and Lipschitz algebra as specification, real spaces. Not under contract: '
+            'gradients of built-in functionals (KL, Huber, group norms), SeparableSum',
+    'technique': 'contract-based deductive verification: gradient / value / Lipschitz rules as postconditions over abstract functionals, Gram normal form, z3',
+}
 for _k in PROPS:
     NOT_APPLICABLE.pop(_k, None)
